@@ -337,6 +337,100 @@ fn stream_tojm(fields: &[&str]) -> String {
     })
 }
 
+/// compile-time obligations of C16: with `sync`, these types are Send + Sync (checked by rustc on every build)
+#[cfg(feature = "sync")]
+#[allow(dead_code)]
+fn assert_send_sync() {
+    fn is<T: Send + Sync>() {}
+    is::<jmespath::Expression<'static>>();
+    is::<jmespath::Runtime>();
+    is::<Variable>();
+    is::<Rcvar>();
+    is::<jmespath::JmespathError>();
+}
+
+/// threads: `<nthreads>\t<exprs hex ','-sep>\t<docs ';'-sep>\t<ops per thread: thread programs '|'-sep, ops ','-sep>`
+/// ops: `s<e>:<d>` search shared expression e (compiled on a private leaked Runtime before the threads start) on shared doc d;
+///      `c<e>:<d>` compile expression text e through the *default* runtime inside the thread (first use races) and search doc d.
+/// All threads start at a barrier. Output: `threads=<per-thread results>\tsequential=<same ops run afterwards on one thread>\t<same|DIFF>`
+#[cfg(feature = "sync")]
+fn stream_threads(fields: &[&str]) -> String {
+    use std::sync::{Arc, Barrier};
+    let n: usize = fields[0].parse().unwrap();
+    let texts: Vec<String> = fields[1].split(',').filter(|x| !x.is_empty()).map(unhex_str).collect();
+    let docs: Vec<Rcvar> = fields[2].split(';').map(|d| Rcvar::new(parse_value(d))).collect();
+    let programs: Vec<Vec<String>> =
+        fields[3].split('|').map(|p| p.split(',').filter(|x| !x.is_empty()).map(|x| x.to_string()).collect()).collect();
+    guarded(move || {
+        let rt: &'static jmespath::Runtime = {
+            let mut r = jmespath::Runtime::new();
+            r.register_builtin_functions();
+            Box::leak(Box::new(r))
+        };
+        let shared: Arc<Vec<Option<jmespath::Expression<'static>>>> = Arc::new(texts.iter().map(|t| rt.compile(t).ok()).collect());
+        let docs = Arc::new(docs);
+        let texts = Arc::new(texts);
+        fn run_op(
+            op: &str,
+            shared: &[Option<jmespath::Expression<'static>>],
+            texts: &[String],
+            docs: &[Rcvar],
+        ) -> String {
+            let kind = &op[..1];
+            let mut it = op[1..].split(':');
+            let e: usize = it.next().unwrap().parse().unwrap();
+            let d: usize = it.next().unwrap().parse().unwrap();
+            let show = |r: Result<Rcvar, jmespath::JmespathError>| match r {
+                Ok(v) => format!("ok {}", value_str(&v)),
+                Err(e) => err_str(&e),
+            };
+            match kind {
+                "s" => match &shared[e % shared.len()] {
+                    Some(ex) => show(ex.search(docs[d % docs.len()].clone())),
+                    None => "uncompiled".to_string(),
+                },
+                _ => match jmespath::compile(&texts[e % texts.len()]) {
+                    Ok(ex) => show(ex.search(docs[d % docs.len()].clone())),
+                    Err(e) => format!("C {}", err_str(&e)),
+                },
+            }
+        }
+        let barrier = Arc::new(Barrier::new(n));
+        let mut handles = vec![];
+        for t in 0..n {
+            let prog = programs[t % programs.len()].clone();
+            let (shared, texts, docs, barrier) = (shared.clone(), texts.clone(), docs.clone(), barrier.clone());
+            handles.push(std::thread::spawn(move || {
+                barrier.wait();
+                prog.iter().map(|op| run_op(op, &shared, &texts, &docs)).collect::<Vec<_>>().join(" ; ")
+            }));
+        }
+        let mut per_thread = vec![];
+        let mut panicked = false;
+        for h in handles {
+            match h.join() {
+                Ok(s) => per_thread.push(s),
+                Err(_) => {
+                    panicked = true;
+                    per_thread.push("THREAD-PANIC".to_string());
+                }
+            }
+        }
+        let mut seq = vec![];
+        for t in 0..n {
+            let prog = &programs[t % programs.len()];
+            seq.push(prog.iter().map(|op| run_op(op, &shared, &texts, &docs)).collect::<Vec<_>>().join(" ; "));
+        }
+        let same = !panicked && per_thread == seq;
+        format!("threads={}\tsequential={}\t{}", per_thread.join(" || "), seq.join(" || "), if same { "same" } else { "DIFF" })
+    })
+}
+
+#[cfg(not(feature = "sync"))]
+fn stream_threads(_fields: &[&str]) -> String {
+    "NOSYNC".to_string()
+}
+
 fn main() {
     std::panic::set_hook(Box::new(|_| {}));
     let stream = std::env::args().nth(1).expect("usage: vharness <stream>");
@@ -355,6 +449,7 @@ fn main() {
             "json" => stream_json(&fields),
             "serde" => serde_stream::stream_serde(&fields),
             "tojm" => stream_tojm(&fields),
+            "threads" => stream_threads(&fields),
             "history" => stream_history(&fields),
             s => panic!("unknown stream {}", s),
         };
